@@ -311,10 +311,109 @@ UNIT = {
          'the unused parameter `_` gets a name (a wildcard parameter pattern binds nothing; naming it changes nothing)'),
     ],
     'allow': [r'external_body', r'uninterp'],
-    'min_obligations': 25,
-    'trusted': [],
-    'not_covered': [],
-    'samples': [],
-    'mutants': [],
+    'min_obligations': 28,
+    'trusted': [
+        'THE SCHEDULE MODEL. (1) `.await` on a future that was NOT spawned runs it to completion at that point (rules async-seq-fn / async-seq-await, '
+        'unit c36_channel\'s): the main loop does not take the next message before the awaited handler has returned — this is what "sync group" means. '
+        '(2) rule async-defer-spawn (this unit): `tokio::spawn(async move { BODY })` — NOTHING BODY does to the analysis has happened when the spawning '
+        'fn returns; its calls are recorded in the unordered ghost multiset `deferred` (any later time, any order, possibly never before the next '
+        'message), and what BODY reads of the current state is unconstrained. This is the conservative reading (c24 / c36 run BODY at the spawn point, '
+        'which cannot tell the sync group from the async group). (3) predicate `chain` of the sequence lemmas: between two turns of the main loop NOTHING '
+        'ELSE appends to the ordered log `applied` or changes `known` — i.e. no spawned task updates the analysis for a document of the sequence while '
+        'the sequence is handled (true once `deferred` gains nothing from the three methods, which the dispatch clauses prove; the other writers of the '
+        'analysis — reload / reindex, didChangeWatchedFiles, didRenameFiles, configuration changes — are C29 and not covered)',
+        'ghost state `st` (c24\'s rules c24-shared-state / c24-ghost-param): `applied` / `deferred` / `known` / `depth` are written only by the shims of '
+        'EmmyLuaAnalysis::{update_file_by_uri, remove_file_by_uri} (one log entry per call, in call order) and by the two brackets of async-defer-spawn; '
+        '`get_file_id(uri).is_some()` on the main loop == `known.contains(uri)`; update makes the uri known, removal forgets it (vfs file_id / remove_file: '
+        'unit c22_vfs / c10 territory). "The document is analysed with text t" == the last entry of `applied` about its uri is (uri, Some(t)) '
+        '(Vfs::set_file_content stores the text and the index is rebuilt from it: not re-proved here)',
+        'tokio::sync::RwLock as access only: `read().await` gives `&T`, `write().await` a guard through which the `&mut self` methods are called; no '
+        'fairness, no deadlock modelling (C28); std::mem::drop releases a guard and does nothing else',
+        'uninterpreted facts, constant while the sequence is handled: sp_is_workspace_file(uri) (WorkspaceManager::is_workspace_file: workspace folders, '
+        'libraries, ignore globs), sp_path(uri) (uri_to_file_path), sp_on_disk(path) (Path::exists: the file system), sp_is_module_file(uri) (the module '
+        'index has a ModuleInfo for the document: its path lies under a workspace root or library). A configuration / workspace-folder change or a file '
+        'created / deleted on disk in the middle of the sequence is not modelled',
+        'FileId is an opaque token that remembers the uri it was looked up for (sp_uri); LuaModuleIndex::get_module(file_id) is Some iff sp_is_module_file of that uri',
+        'lsp_server 0.7.9 `Notification::extract` (Ok iff the method matches and the params deserialize; the value is `parsed::<P>(params)`), '
+        '`deserializes` / `parsed` uninterpreted (nothing is assumed about serde); lsp_types (emmy_lsp_types 0.1.0) parameter structs of the three '
+        'notifications and the TextDocumentSync* capability types transcribed as data; the METHOD strings and `type Params` are read from the vendored '
+        'crate at load time (Undecided when they differ from the transcription)',
+        'macro expansion: unit c24_dispatch\'s rule c24-macro-expand (mrules.py) implements macro_rules transcription for the single-rule, one-level-repetition '
+        'shape of dispatch_notification!; it is not rustc\'s expander. Cross-check: replay/c27/replay.py observes the same behaviour on the compiled server',
+        'opaque shims without contract and WITHOUT the ghost state: WorkspaceManager::{sync_open_file, close_open_file, extend_reindex_delay}, '
+        'FileDiagnostic::{add_diagnostic_task, clear_push_file_diagnostics}, LspFeatures::supports_pull_diagnostic (arbitrary bool), get_emmyrc (arbitrary '
+        'configuration), ServerContextSnapshot accessors, the six other notification handlers, handle_cancel, on_request_handler, on_response_handler, '
+        'handle_shutdown, ServerContext::close — assumed not to update the analysis before they return (request tasks only read it)',
+        'vstd: String / str equality and `clone`, Vec::first (slice), Option::{unwrap_or, is_some, is_none}, `?` on Option, Arc deref, reveal_strlit on the METHOD literals',
+    ],
+    'not_covered': [
+        'reload / reindex racing with notifications (C29): reload_workspace re-applies the open-file overlay kept by sync_open_file / close_open_file; no clause '
+        'depends on sync_open_file here, so dropping it is invisible to this unit',
+        'debounced diagnostics (C30): add_diagnostic_task / clear_push_file_diagnostics are opaque; which text a diagnostic run sees is not claimed',
+        'lock fairness and deadlock freedom (C28); the real tokio scheduling of the ASYNC group (only: "not before the spawner returns, in no order")',
+        'the other writers of the analysis: didChangeWatchedFiles, didRenameFiles, didChangeConfiguration, didSave (reindex) — opaque, spawned',
+        'a didChange with SEVERAL content changes: LSP applies them in order, so under FULL sync the LAST one is the document; the handler analyses the '
+        'FIRST (`content_changes.first()`). Clients send exactly one full-text change under FULL sync, so the contract speaks about element 0; '
+        'OBSERVATION, not claimed either way',
+        'documents that are filtered out (`should_process` false: unknown to the analysis and not a workspace file) are never analysed, by design of the '
+        'handler; the sequence clause is stated for processed documents (unconditionally for workspace files)',
+        'a workspace / library file closed WITHOUT saving keeps the editor text in the analysis (the handler does not re-read the disk): recorded as '
+        'C27.close.workspace-file-keeps-last-text, whether that is the intended meaning of "closed" is not decided here',
+        'messages queued during initialization (process_pending_messages) and the order in which the main loop takes messages: unit c24_dispatch (C24.pending.*)',
+        'Vfs::set_file_content / remove_file and the index update themselves (units c22_vfs, c09, c10)',
+    ],
+    'samples': [
+        'on_did_open_text_document(ctx, {uri, text}) on the main loop, uri known or a workspace file: applied\' == applied ++ [(uri, Some(text))], deferred\' == deferred, known\' == known + {uri}; otherwise st\' == st',
+        'on_did_change_text_document(ctx, {uri, content_changes}) : |content_changes| > 0 and processed -> applied\' == applied ++ [(uri, Some(content_changes[0].text))]; |content_changes| == 0 -> st\' == st, returns None',
+        'on_did_close_document(ctx, {uri}) : (path(uri) = Some(p) and p not on disk) or (uri known and no ModuleInfo) -> applied\' == applied ++ [(uri, None)], known\' == known - {uri}; otherwise st\' == st',
+        'on_notification_handler(n): Ok; method == "textDocument/didOpen" | "textDocument/didChange" | "textDocument/didClose" with deserializable params -> inline_post(st, st\', note_of(n)) '
+        '[FAILS on the unrepaired tree for didOpen and didClose: both sit in the `async:` group, their update lands in `deferred`]',
+        'handle_message(Notification(n)): step(st, st\', note_of(n)) — the notification has been handled to the end when handle_message returns',
+        'lemma_last_notification_wins(states, notes, u, j): chain && notes[j] is the last note about u && it is a processed didOpen / didChange with text t ==> last_for(final.applied, u) == Some(Some(t))',
+        'lemma_open_then_change: didOpen(u, t1) processed at turn i, didChange(u, t2) at turn j > i the last note about u, no didClose(u) between ==> last_for(final.applied, u) == Some(Some(t2))',
+        'register_capabilities: text_document_sync == Some(Options { change: Some(FULL), open_close: Some(true), .. })',
+    ],
+    'findings': [
+        'C27.dispatch.text-sync-notifications-are-not-spawned.didOpen / .didClose FAIL on the unrepaired tree: DidOpenTextDocument and DidCloseTextDocument are in the '
+        '`async:` group of dispatch_notification! (handlers/notification_handler.rs), DidChangeTextDocument in the `sync:` group. Message sequence: '
+        'didOpen(u, t1); didChange(u, t2) back to back — the didOpen task is spawned, the didChange is handled inline and applies t2, then the didOpen task '
+        'applies t1: the analysis stays on t1 while the client\'s document is t2. Observed on the compiled server (replay/c27/replay.py): 5 of 6, 8 of 10, 3 of 4 rounds. '
+        'Repair: proposed_fix_text_sync_inline.diff (move both entries to `sync:`); with it the unit verifies (exit 0)',
+    ],
+    'mutants': [
+        # on the unrepaired tree .didOpen and .didClose fail without any edit; the mutant adds .didChange
+        {'name': 'didChange-moved-to-the-async-group', 'item': 'on_notification_handler',
+         'pattern': r'(sync: \{[^}]*?)DidChangeTextDocument => on_did_change_text_document,([^}]*\}\s*async: \{)',
+         'repl': r'\1\2 DidChangeTextDocument => on_did_change_text_document,',
+         'expect': r'C27\.dispatch\.text-sync-notifications-are-not-spawned\.didChange'},
+        {'name': 'change-update-inside-a-spawned-task', 'item': 'on_did_change_text_document',
+         'pattern': r'let file_id = analysis\.update_file_by_uri\(&uri, Some\(text\)\);',
+         'repl': 'let file_id: Option<FileId> = None; { let context = context.clone(); let uri = uri.clone(); '
+                 'tokio::spawn(async move { let mut analysis = context.analysis().write().await; analysis.update_file_by_uri(&uri, Some(text)); }); }',
+         'expect': r'C27\.change\.applies-text-before-returning'},
+        {'name': 'open-returns-before-the-update-when-pull-diagnostics', 'item': 'on_did_open_text_document',
+         'pattern': r'(if !should_process \{\s*return None;\s*\})',
+         'repl': r'\1 if context.lsp_features().supports_pull_diagnostic() { return Some(()); }',
+         'expect': r'C27\.open\.applies-text-before-returning'},
+        {'name': 'change-filter-forgets-known-documents', 'item': 'on_did_change_text_document',
+         'pattern': r'if old_file_id\.is_some\(\) \{', 'repl': 'if old_file_id.is_some() && false {',
+         'expect': r'C27\.change\.applies-text-before-returning'},
+        {'name': 'open-applies-the-text-twice', 'item': 'on_did_open_text_document',
+         'pattern': r'(let file_id = analysis\.update_file_by_uri\(&uri, Some\(text\)\);)',
+         'repl': r'analysis.update_file_by_uri(&uri, Some(text.clone())); \1',
+         'expect': r'C27\.open\.applies-text-before-returning'},
+        {'name': 'close-keeps-a-document-that-is-not-on-disk', 'item': 'on_did_close_document',
+         'pattern': r'mut_analysis\.remove_file_by_uri\(uri\);', 'repl': '',
+         'expect': r'C27\.close\.non-workspace-document-removed-before-returning'},
+        {'name': 'close-removes-a-workspace-file', 'item': 'on_did_close_document',
+         'pattern': r'if module_info\.is_none\(\) \{', 'repl': 'if module_info.is_none() || true {',
+         'expect': r'C27\.close\.workspace-file-keeps-last-text'},
+        {'name': 'loop-drops-the-notification', 'item': 'ServerMessageProcessor::handle_message',
+         'pattern': r'(on_notification_handler\(notify, server_context\)\.await\?;)', 'repl': r'if false { \1 }',
+         'expect': r'C27\.loop\.notification-handled-before-the-next-message'},
+        {'name': 'incremental-sync-advertised', 'item': 'TextDocumentCapabilities::register_capabilities',
+         'pattern': r'TextDocumentSyncKind::FULL', 'repl': 'TextDocumentSyncKind::INCREMENTAL',
+         'expect': r'C27\.capabilities\.full-sync-advertised'},
+    ],
 }
 UNIT['template_text'] = _template()
